@@ -205,6 +205,7 @@ MergeAll ==
 (* Center.RemoveBlocks(h): only blocks that are still temps can be removed *)
 RemoveBlocks(h) ==
   /\ WithCenter
+  /\ h <= Last + 1           \* (one height beyond the chain is enough to see the refusal)
   /\ LET ok == NTemps > 0 /\ h >= tempsFrom - 1 /\ h <= Last
      IN /\ chain' = IF ok THEN SubSeq(chain, 1, h) ELSE chain
         /\ UNCHANGED <<tempsFrom, gens, nwrites, pool>>
